@@ -104,7 +104,7 @@ def check_case(case):
     labels.append('external_buffers=%d' % min(len(ranges), 6))
   # both load and compute identical outputs
   from vq import kfpred as _kp
-  if _kp.unsafe_findings(case):
+  if engine.must_not_execute(case, small.qbytes):
     # a recorded runtime-UB finding: not executed in the worker (C06/C13 own it)
     nt0 = len(set(sizes)) >= 2 and any(sz % 16 for sz in sizes)
     return core.result(nt0, labels + ['execution_excluded:runtime_ub_finding'])
